@@ -654,6 +654,22 @@ func (e Event) Selected() []Input {
 	return res
 }
 
+// Returns the position in a log's topics of the indexed input
+// named name. Topic 0 is the event's signature hash.
+func (e Event) topicIndex(name string) int {
+	n := 1
+	for _, inp := range e.Inputs {
+		if !inp.Indexed {
+			continue
+		}
+		if inp.Name == name {
+			return n
+		}
+		n++
+	}
+	return 0
+}
+
 func (e Event) numIndexed() int {
 	var res int
 	for _, inp := range e.Inputs {
@@ -673,6 +689,9 @@ type coldef struct {
 	BlockData BlockData
 	Column    wpg.Column
 	Notify    bool
+
+	// position of an indexed input in a log's topics
+	topic int
 }
 
 // Implements the [shovel.Integration] interface
@@ -753,6 +772,7 @@ func (ig *Integration) setCols() {
 			Input:  input,
 			Column: c,
 			Notify: slices.Contains(ig.Notification.Columns, c.Name),
+			topic:  ig.Event.topicIndex(input.Name),
 		})
 		ig.numSelected++
 	}
@@ -1069,18 +1089,17 @@ func (ig Integration) processLog(rows [][]any, lwc *logWithCtx, pgmut *sync.Mute
 			return nil, fmt.Errorf("scanning abi data: %w", err)
 		}
 		for i := 0; i < ig.resultCache.Len(); i++ {
-			ictr, actr := 1, 0
+			actr := 0
 			frs := filterResults{kind: ig.filterAGG}
 			row := make([]any, len(ig.coldefs))
 			for j, def := range ig.coldefs {
 				switch {
 				case def.Input.Indexed:
-					d := dbtype(def.Input.Type, lwc.l.Topics[ictr])
+					d := dbtype(def.Input.Type, lwc.l.Topics[def.topic])
 					if err := def.Input.Accept(lwc.ctx, pgmut, pg, d, &frs); err != nil {
 						return nil, fmt.Errorf("checking filter: %w", err)
 					}
 					row[j] = d
-					ictr++
 				case !def.BlockData.Empty():
 					var d any
 					switch {
@@ -1112,7 +1131,7 @@ func (ig Integration) processLog(rows [][]any, lwc *logWithCtx, pgmut *sync.Mute
 		for i, def := range ig.coldefs {
 			switch {
 			case def.Input.Indexed:
-				d := dbtype(def.Input.Type, lwc.l.Topics[1+i])
+				d := dbtype(def.Input.Type, lwc.l.Topics[def.topic])
 				if err := def.Input.Accept(lwc.ctx, pgmut, pg, d, &frs); err != nil {
 					return nil, fmt.Errorf("checking filter: %w", err)
 				}
